@@ -35,12 +35,15 @@ type Given struct {
 	Batch    int    `json:"batch"`    // per-operator sequence number of the ProcessEventBatch call
 	BatchLen int    `json:"batchLen"`
 	Full     *KeyState `json:"full,omitempty"` // the complete state of the key as given (before this event)
+	Pos      int       `json:"pos"`            // position (0-based) of the operator in the assembly it was last deployed in ...
+	Of       int       `json:"of"`             // ... and the number of operators of that assembly: Pos's key-group range is the operator's
 }
 
 // handler is the reference proto.Handler of one node.
 type handler struct {
 	g     *generation
 	label string
+	node  *opNode // operators only: where the node's current position comes from
 	nproc int
 }
 
@@ -115,6 +118,9 @@ func (h *handler) ProcessEventBatch(ctx context.Context, req *handlerpb.ProcessE
 			return nil, fmt.Errorf("no KeyState supplied for key %q", ke.Key)
 		}
 		gv := Given{Op: h.label, Rec: rec, SeenCnt: st.Cnt[rec.ID()], SeenLast: st.Last[rec.Split], Batch: h.nproc, BatchLen: len(req.Events)}
+		if h.node != nil {
+			gv.Pos, gv.Of = int(h.node.pos.Load()), int(h.node.of.Load())
+		}
 		if h.g.c.opt.FullGiven {
 			gv.Full = st.clone()
 		}
